@@ -64,6 +64,9 @@ theories/Model/DistArgs.vos theories/Model/DistArgs.vok theories/Model/DistArgs.
 theories/Model/DistFallback.vo theories/Model/DistFallback.glob theories/Model/DistFallback.v.beautified theories/Model/DistFallback.required_vo: theories/Model/DistFallback.v theories/Model/DistStatus.vo
 theories/Model/DistFallback.vio: theories/Model/DistFallback.v theories/Model/DistStatus.vio
 theories/Model/DistFallback.vos theories/Model/DistFallback.vok theories/Model/DistFallback.required_vos: theories/Model/DistFallback.v theories/Model/DistStatus.vos
+theories/Model/DistHistory.vo theories/Model/DistHistory.glob theories/Model/DistHistory.v.beautified theories/Model/DistHistory.required_vo: theories/Model/DistHistory.v theories/Model/DistStatus.vo theories/Model/DistFallback.vo
+theories/Model/DistHistory.vio: theories/Model/DistHistory.v theories/Model/DistStatus.vio theories/Model/DistFallback.vio
+theories/Model/DistHistory.vos theories/Model/DistHistory.vok theories/Model/DistHistory.required_vos: theories/Model/DistHistory.v theories/Model/DistStatus.vos theories/Model/DistFallback.vos
 theories/Model/DistStatus.vo theories/Model/DistStatus.glob theories/Model/DistStatus.v.beautified theories/Model/DistStatus.required_vo: theories/Model/DistStatus.v 
 theories/Model/DistStatus.vio: theories/Model/DistStatus.v 
 theories/Model/DistStatus.vos theories/Model/DistStatus.vok theories/Model/DistStatus.required_vos: theories/Model/DistStatus.v 
@@ -97,6 +100,9 @@ theories/Model/PpCache.vos theories/Model/PpCache.vok theories/Model/PpCache.req
 theories/Model/PpPaths.vo theories/Model/PpPaths.glob theories/Model/PpPaths.v.beautified theories/Model/PpPaths.required_vo: theories/Model/PpPaths.v theories/Base/Sx.vo
 theories/Model/PpPaths.vio: theories/Model/PpPaths.v theories/Base/Sx.vio
 theories/Model/PpPaths.vos theories/Model/PpPaths.vok theories/Model/PpPaths.required_vos: theories/Model/PpPaths.v theories/Base/Sx.vos
+theories/Model/PpTimeline.vo theories/Model/PpTimeline.glob theories/Model/PpTimeline.v.beautified theories/Model/PpTimeline.required_vo: theories/Model/PpTimeline.v theories/Base/Sx.vo theories/Gen/C04Consts.vo theories/Model/PpPaths.vo theories/Model/TimeMacro.vo theories/Model/PpCache.vo
+theories/Model/PpTimeline.vio: theories/Model/PpTimeline.v theories/Base/Sx.vio theories/Gen/C04Consts.vio theories/Model/PpPaths.vio theories/Model/TimeMacro.vio theories/Model/PpCache.vio
+theories/Model/PpTimeline.vos theories/Model/PpTimeline.vok theories/Model/PpTimeline.required_vos: theories/Model/PpTimeline.v theories/Base/Sx.vos theories/Gen/C04Consts.vos theories/Model/PpPaths.vos theories/Model/TimeMacro.vos theories/Model/PpCache.vos
 theories/Model/ReqSM.vo theories/Model/ReqSM.glob theories/Model/ReqSM.v.beautified theories/Model/ReqSM.required_vo: theories/Model/ReqSM.v theories/Base/Sx.vo theories/Model/Stats.vo
 theories/Model/ReqSM.vio: theories/Model/ReqSM.v theories/Base/Sx.vio theories/Model/Stats.vio
 theories/Model/ReqSM.vos theories/Model/ReqSM.vok theories/Model/ReqSM.required_vos: theories/Model/ReqSM.v theories/Base/Sx.vos theories/Model/Stats.vos
@@ -169,6 +175,9 @@ theories/Proofs/DistArgs.vos theories/Proofs/DistArgs.vok theories/Proofs/DistAr
 theories/Proofs/DistFallback.vo theories/Proofs/DistFallback.glob theories/Proofs/DistFallback.v.beautified theories/Proofs/DistFallback.required_vo: theories/Proofs/DistFallback.v theories/Model/DistStatus.vo theories/Model/DistFallback.vo theories/Proofs/DistStatus.vo
 theories/Proofs/DistFallback.vio: theories/Proofs/DistFallback.v theories/Model/DistStatus.vio theories/Model/DistFallback.vio theories/Proofs/DistStatus.vio
 theories/Proofs/DistFallback.vos theories/Proofs/DistFallback.vok theories/Proofs/DistFallback.required_vos: theories/Proofs/DistFallback.v theories/Model/DistStatus.vos theories/Model/DistFallback.vos theories/Proofs/DistStatus.vos
+theories/Proofs/DistHistory.vo theories/Proofs/DistHistory.glob theories/Proofs/DistHistory.v.beautified theories/Proofs/DistHistory.required_vo: theories/Proofs/DistHistory.v theories/Model/DistStatus.vo theories/Model/DistFallback.vo theories/Model/DistHistory.vo theories/Proofs/DistStatus.vo theories/Proofs/DistFallback.vo
+theories/Proofs/DistHistory.vio: theories/Proofs/DistHistory.v theories/Model/DistStatus.vio theories/Model/DistFallback.vio theories/Model/DistHistory.vio theories/Proofs/DistStatus.vio theories/Proofs/DistFallback.vio
+theories/Proofs/DistHistory.vos theories/Proofs/DistHistory.vok theories/Proofs/DistHistory.required_vos: theories/Proofs/DistHistory.v theories/Model/DistStatus.vos theories/Model/DistFallback.vos theories/Model/DistHistory.vos theories/Proofs/DistStatus.vos theories/Proofs/DistFallback.vos
 theories/Proofs/DistStatus.vo theories/Proofs/DistStatus.glob theories/Proofs/DistStatus.v.beautified theories/Proofs/DistStatus.required_vo: theories/Proofs/DistStatus.v theories/Model/DistStatus.vo
 theories/Proofs/DistStatus.vio: theories/Proofs/DistStatus.v theories/Model/DistStatus.vio
 theories/Proofs/DistStatus.vos theories/Proofs/DistStatus.vok theories/Proofs/DistStatus.required_vos: theories/Proofs/DistStatus.v theories/Model/DistStatus.vos
@@ -202,6 +211,9 @@ theories/Proofs/Paths.vos theories/Proofs/Paths.vok theories/Proofs/Paths.requir
 theories/Proofs/PpCache.vo theories/Proofs/PpCache.glob theories/Proofs/PpCache.v.beautified theories/Proofs/PpCache.required_vo: theories/Proofs/PpCache.v theories/Base/Sx.vo theories/Gen/C04Consts.vo theories/Model/TimeMacro.vo theories/Model/PpCache.vo theories/Proofs/TimeMacro.vo
 theories/Proofs/PpCache.vio: theories/Proofs/PpCache.v theories/Base/Sx.vio theories/Gen/C04Consts.vio theories/Model/TimeMacro.vio theories/Model/PpCache.vio theories/Proofs/TimeMacro.vio
 theories/Proofs/PpCache.vos theories/Proofs/PpCache.vok theories/Proofs/PpCache.required_vos: theories/Proofs/PpCache.v theories/Base/Sx.vos theories/Gen/C04Consts.vos theories/Model/TimeMacro.vos theories/Model/PpCache.vos theories/Proofs/TimeMacro.vos
+theories/Proofs/PpTimeline.vo theories/Proofs/PpTimeline.glob theories/Proofs/PpTimeline.v.beautified theories/Proofs/PpTimeline.required_vo: theories/Proofs/PpTimeline.v theories/Base/Sx.vo theories/Gen/C04Consts.vo theories/Model/PpPaths.vo theories/Model/TimeMacro.vo theories/Model/PpCache.vo theories/Model/PpTimeline.vo theories/Proofs/TimeMacro.vo theories/Proofs/PpCache.vo
+theories/Proofs/PpTimeline.vio: theories/Proofs/PpTimeline.v theories/Base/Sx.vio theories/Gen/C04Consts.vio theories/Model/PpPaths.vio theories/Model/TimeMacro.vio theories/Model/PpCache.vio theories/Model/PpTimeline.vio theories/Proofs/TimeMacro.vio theories/Proofs/PpCache.vio
+theories/Proofs/PpTimeline.vos theories/Proofs/PpTimeline.vok theories/Proofs/PpTimeline.required_vos: theories/Proofs/PpTimeline.v theories/Base/Sx.vos theories/Gen/C04Consts.vos theories/Model/PpPaths.vos theories/Model/TimeMacro.vos theories/Model/PpCache.vos theories/Model/PpTimeline.vos theories/Proofs/TimeMacro.vos theories/Proofs/PpCache.vos
 theories/Proofs/ReqSM.vo theories/Proofs/ReqSM.glob theories/Proofs/ReqSM.v.beautified theories/Proofs/ReqSM.required_vo: theories/Proofs/ReqSM.v theories/Base/Sx.vo theories/Model/Stats.vo theories/Model/ReqSM.vo
 theories/Proofs/ReqSM.vio: theories/Proofs/ReqSM.v theories/Base/Sx.vio theories/Model/Stats.vio theories/Model/ReqSM.vio
 theories/Proofs/ReqSM.vos theories/Proofs/ReqSM.vok theories/Proofs/ReqSM.required_vos: theories/Proofs/ReqSM.v theories/Base/Sx.vos theories/Model/Stats.vos theories/Model/ReqSM.vos
@@ -247,9 +259,9 @@ theories/Properties/C02.vos theories/Properties/C02.vok theories/Properties/C02.
 theories/Properties/C03.vo theories/Properties/C03.glob theories/Properties/C03.v.beautified theories/Properties/C03.required_vo: theories/Properties/C03.v theories/Base/Sx.vo theories/Model/Lru.vo theories/Model/HitModel.vo theories/Proofs/Lru.vo theories/Proofs/HitModel.vo
 theories/Properties/C03.vio: theories/Properties/C03.v theories/Base/Sx.vio theories/Model/Lru.vio theories/Model/HitModel.vio theories/Proofs/Lru.vio theories/Proofs/HitModel.vio
 theories/Properties/C03.vos theories/Properties/C03.vok theories/Properties/C03.required_vos: theories/Properties/C03.v theories/Base/Sx.vos theories/Model/Lru.vos theories/Model/HitModel.vos theories/Proofs/Lru.vos theories/Proofs/HitModel.vos
-theories/Properties/C04.vo theories/Properties/C04.glob theories/Properties/C04.v.beautified theories/Properties/C04.required_vo: theories/Properties/C04.v theories/Base/Sx.vo theories/Gen/C04Consts.vo theories/Model/PpPaths.vo theories/Model/TimeMacro.vo theories/Model/PpCache.vo theories/Model/LineMarker.vo theories/Proofs/TimeMacro.vo theories/Proofs/PpCache.vo theories/Proofs/LineMarker.vo theories/Run/C04.vo
-theories/Properties/C04.vio: theories/Properties/C04.v theories/Base/Sx.vio theories/Gen/C04Consts.vio theories/Model/PpPaths.vio theories/Model/TimeMacro.vio theories/Model/PpCache.vio theories/Model/LineMarker.vio theories/Proofs/TimeMacro.vio theories/Proofs/PpCache.vio theories/Proofs/LineMarker.vio theories/Run/C04.vio
-theories/Properties/C04.vos theories/Properties/C04.vok theories/Properties/C04.required_vos: theories/Properties/C04.v theories/Base/Sx.vos theories/Gen/C04Consts.vos theories/Model/PpPaths.vos theories/Model/TimeMacro.vos theories/Model/PpCache.vos theories/Model/LineMarker.vos theories/Proofs/TimeMacro.vos theories/Proofs/PpCache.vos theories/Proofs/LineMarker.vos theories/Run/C04.vos
+theories/Properties/C04.vo theories/Properties/C04.glob theories/Properties/C04.v.beautified theories/Properties/C04.required_vo: theories/Properties/C04.v theories/Base/Sx.vo theories/Gen/C04Consts.vo theories/Model/PpPaths.vo theories/Model/TimeMacro.vo theories/Model/PpCache.vo theories/Model/LineMarker.vo theories/Model/PpTimeline.vo theories/Proofs/TimeMacro.vo theories/Proofs/PpCache.vo theories/Proofs/LineMarker.vo theories/Proofs/PpTimeline.vo theories/Run/C04.vo
+theories/Properties/C04.vio: theories/Properties/C04.v theories/Base/Sx.vio theories/Gen/C04Consts.vio theories/Model/PpPaths.vio theories/Model/TimeMacro.vio theories/Model/PpCache.vio theories/Model/LineMarker.vio theories/Model/PpTimeline.vio theories/Proofs/TimeMacro.vio theories/Proofs/PpCache.vio theories/Proofs/LineMarker.vio theories/Proofs/PpTimeline.vio theories/Run/C04.vio
+theories/Properties/C04.vos theories/Properties/C04.vok theories/Properties/C04.required_vos: theories/Properties/C04.v theories/Base/Sx.vos theories/Gen/C04Consts.vos theories/Model/PpPaths.vos theories/Model/TimeMacro.vos theories/Model/PpCache.vos theories/Model/LineMarker.vos theories/Model/PpTimeline.vos theories/Proofs/TimeMacro.vos theories/Proofs/PpCache.vos theories/Proofs/LineMarker.vos theories/Proofs/PpTimeline.vos theories/Run/C04.vos
 theories/Properties/C05.vo theories/Properties/C05.glob theories/Properties/C05.v.beautified theories/Properties/C05.required_vo: theories/Properties/C05.v theories/Base/Sx.vo theories/Model/RustPath.vo theories/Model/DepInfo.vo theories/Model/RustArgs.vo theories/Model/RustKey.vo theories/Gen/C05HashSpec.vo theories/Gen/C05ArgTable.vo theories/Proofs/DepInfo.vo theories/Proofs/RustKey.vo theories/Proofs/RustArgs.vo
 theories/Properties/C05.vio: theories/Properties/C05.v theories/Base/Sx.vio theories/Model/RustPath.vio theories/Model/DepInfo.vio theories/Model/RustArgs.vio theories/Model/RustKey.vio theories/Gen/C05HashSpec.vio theories/Gen/C05ArgTable.vio theories/Proofs/DepInfo.vio theories/Proofs/RustKey.vio theories/Proofs/RustArgs.vio
 theories/Properties/C05.vos theories/Properties/C05.vok theories/Properties/C05.required_vos: theories/Properties/C05.v theories/Base/Sx.vos theories/Model/RustPath.vos theories/Model/DepInfo.vos theories/Model/RustArgs.vos theories/Model/RustKey.vos theories/Gen/C05HashSpec.vos theories/Gen/C05ArgTable.vos theories/Proofs/DepInfo.vos theories/Proofs/RustKey.vos theories/Proofs/RustArgs.vos
@@ -274,9 +286,9 @@ theories/Properties/C11.vos theories/Properties/C11.vok theories/Properties/C11.
 theories/Properties/C12.vo theories/Properties/C12.glob theories/Properties/C12.v.beautified theories/Properties/C12.required_vo: theories/Properties/C12.v theories/Model/CompilerCache.vo theories/Proofs/CompilerCache.vo
 theories/Properties/C12.vio: theories/Properties/C12.v theories/Model/CompilerCache.vio theories/Proofs/CompilerCache.vio
 theories/Properties/C12.vos theories/Properties/C12.vok theories/Properties/C12.required_vos: theories/Properties/C12.v theories/Model/CompilerCache.vos theories/Proofs/CompilerCache.vos
-theories/Properties/C13.vo theories/Properties/C13.glob theories/Properties/C13.v.beautified theories/Properties/C13.required_vo: theories/Properties/C13.v theories/Base/Sx.vo theories/Model/DistStatus.vo theories/Model/DistFallback.vo theories/Model/DistArgs.vo theories/Proofs/DistStatus.vo theories/Proofs/DistFallback.vo theories/Proofs/DistArgs.vo
-theories/Properties/C13.vio: theories/Properties/C13.v theories/Base/Sx.vio theories/Model/DistStatus.vio theories/Model/DistFallback.vio theories/Model/DistArgs.vio theories/Proofs/DistStatus.vio theories/Proofs/DistFallback.vio theories/Proofs/DistArgs.vio
-theories/Properties/C13.vos theories/Properties/C13.vok theories/Properties/C13.required_vos: theories/Properties/C13.v theories/Base/Sx.vos theories/Model/DistStatus.vos theories/Model/DistFallback.vos theories/Model/DistArgs.vos theories/Proofs/DistStatus.vos theories/Proofs/DistFallback.vos theories/Proofs/DistArgs.vos
+theories/Properties/C13.vo theories/Properties/C13.glob theories/Properties/C13.v.beautified theories/Properties/C13.required_vo: theories/Properties/C13.v theories/Base/Sx.vo theories/Model/DistStatus.vo theories/Model/DistFallback.vo theories/Model/DistArgs.vo theories/Model/DistHistory.vo theories/Proofs/DistStatus.vo theories/Proofs/DistFallback.vo theories/Proofs/DistArgs.vo theories/Proofs/DistHistory.vo
+theories/Properties/C13.vio: theories/Properties/C13.v theories/Base/Sx.vio theories/Model/DistStatus.vio theories/Model/DistFallback.vio theories/Model/DistArgs.vio theories/Model/DistHistory.vio theories/Proofs/DistStatus.vio theories/Proofs/DistFallback.vio theories/Proofs/DistArgs.vio theories/Proofs/DistHistory.vio
+theories/Properties/C13.vos theories/Properties/C13.vok theories/Properties/C13.required_vos: theories/Properties/C13.v theories/Base/Sx.vos theories/Model/DistStatus.vos theories/Model/DistFallback.vos theories/Model/DistArgs.vos theories/Model/DistHistory.vos theories/Proofs/DistStatus.vos theories/Proofs/DistFallback.vos theories/Proofs/DistArgs.vos theories/Proofs/DistHistory.vos
 theories/Properties/C14.vo theories/Properties/C14.glob theories/Properties/C14.v.beautified theories/Properties/C14.required_vo: theories/Properties/C14.v theories/Base/Sx.vo theories/Model/Stats.vo theories/Model/ReqSM.vo theories/Proofs/Stats.vo theories/Proofs/ReqSM.vo
 theories/Properties/C14.vio: theories/Properties/C14.v theories/Base/Sx.vio theories/Model/Stats.vio theories/Model/ReqSM.vio theories/Proofs/Stats.vio theories/Proofs/ReqSM.vio
 theories/Properties/C14.vos theories/Properties/C14.vok theories/Properties/C14.required_vos: theories/Properties/C14.v theories/Base/Sx.vos theories/Model/Stats.vos theories/Model/ReqSM.vos theories/Proofs/Stats.vos theories/Proofs/ReqSM.vos
@@ -334,9 +346,9 @@ theories/Run/C11.vos theories/Run/C11.vok theories/Run/C11.required_vos: theorie
 theories/Run/C12.vo theories/Run/C12.glob theories/Run/C12.v.beautified theories/Run/C12.required_vo: theories/Run/C12.v theories/Base/Sx.vo theories/Model/CompilerCache.vo
 theories/Run/C12.vio: theories/Run/C12.v theories/Base/Sx.vio theories/Model/CompilerCache.vio
 theories/Run/C12.vos theories/Run/C12.vok theories/Run/C12.required_vos: theories/Run/C12.v theories/Base/Sx.vos theories/Model/CompilerCache.vos
-theories/Run/C13.vo theories/Run/C13.glob theories/Run/C13.v.beautified theories/Run/C13.required_vo: theories/Run/C13.v theories/Base/Sx.vo theories/Model/DistStatus.vo theories/Model/DistFallback.vo theories/Model/DistArgs.vo
-theories/Run/C13.vio: theories/Run/C13.v theories/Base/Sx.vio theories/Model/DistStatus.vio theories/Model/DistFallback.vio theories/Model/DistArgs.vio
-theories/Run/C13.vos theories/Run/C13.vok theories/Run/C13.required_vos: theories/Run/C13.v theories/Base/Sx.vos theories/Model/DistStatus.vos theories/Model/DistFallback.vos theories/Model/DistArgs.vos
+theories/Run/C13.vo theories/Run/C13.glob theories/Run/C13.v.beautified theories/Run/C13.required_vo: theories/Run/C13.v theories/Base/Sx.vo theories/Model/DistStatus.vo theories/Model/DistFallback.vo theories/Model/DistArgs.vo theories/Model/DistHistory.vo
+theories/Run/C13.vio: theories/Run/C13.v theories/Base/Sx.vio theories/Model/DistStatus.vio theories/Model/DistFallback.vio theories/Model/DistArgs.vio theories/Model/DistHistory.vio
+theories/Run/C13.vos theories/Run/C13.vok theories/Run/C13.required_vos: theories/Run/C13.v theories/Base/Sx.vos theories/Model/DistStatus.vos theories/Model/DistFallback.vos theories/Model/DistArgs.vos theories/Model/DistHistory.vos
 theories/Run/C14.vo theories/Run/C14.glob theories/Run/C14.v.beautified theories/Run/C14.required_vo: theories/Run/C14.v theories/Base/Sx.vo theories/Run/C09.vo
 theories/Run/C14.vio: theories/Run/C14.v theories/Base/Sx.vio theories/Run/C09.vio
 theories/Run/C14.vos theories/Run/C14.vok theories/Run/C14.required_vos: theories/Run/C14.v theories/Base/Sx.vos theories/Run/C09.vos
